@@ -208,4 +208,20 @@ theorem mergeL_emb [AddZeroClass K] (fs : List (Fld K)) (hne : fs ≠ [])
       rw [this, sumList_zero]
 
 
+/-! ### translation covariance of the product (position independence) -/
+
+/-- a field moved by (d0, d1) pixels -/
+def Fld.translate (f : Fld K) (d0 d1 : Int) : Fld K := { f with o0 := f.o0 + d0, o1 := f.o1 + d1 }
+
+theorem Fld.translate_extent (f : Fld K) (d0 d1 : Int) : (f.translate d0 d1).extent = f.extent.shift d0 d1 :=
+  arrayExtent_translate ..
+
+theorem mulArr_translate [Mul K] (a b : Fld K) (d0 d1 : Int) :
+    (a.translate d0 d1).mulArr (b.translate d0 d1) = (a.mulArr b).map fun p => p.translate d0 d1 := by
+  unfold Fld.mulArr
+  simp only [Fld.translate_extent, intersect_translate, intersectionSlices_translate, intersectionShift_translate]
+  by_cases h : intersect a.extent b.extent = true
+  · simp only [h, if_true, Option.map_some]; rfl
+  · simp only [h, Bool.false_eq_true, if_false, Option.map_none]
+
 end Lentil
